@@ -121,6 +121,28 @@ func c03(env *core.Env, kind string) {
 			// manifests on both sides of the client's in-memory threshold
 			op.Data = append(op.Data, bytes.Repeat([]byte(" "), 131080-len(op.Data)+c.Int("pad", 5))...)
 		}
+		if reg.IsRead(op.Kind) && c.Bool("overlap", 1, 5) {
+			// two readers open at the same time: the second call must not disturb the first
+			op2 := g.NextRead()
+			if op2 != nil {
+				d1, d2 := reg.ExecOverlapped(ctx, direct, op, op2)
+				h1, h2 := reg.ExecOverlapped(ctx, st.Reg, op, op2)
+				env.Op("overlapped:" + op.Kind.String() + "+" + op2.Kind.String())
+				env.Probe("c03:overlapped-readers")
+				env.Logf("%d overlapped %s || %s\n    direct: %s | %s\n    http:   %s | %s", i, op, op2, d1, d2, h1, h2)
+				for k, pair := range [][2]*reg.Res{{d1, h1}, {d2, h2}} {
+					d, h := pair[0], pair[1]
+					o := []*reg.Op{op, op2}[k]
+					if o.Kind == reg.GetBlobRange && o.O1 >= 0 && o.O0 >= o.O1 {
+						continue
+					}
+					if (d.Err == nil) != (h.Err == nil) || (d.ReadErr == nil) != (h.ReadErr == nil) || !bytes.Equal(d.Data, h.Data) {
+						env.Failf("C03/overlapped-readers/"+o.Kind.String(), "step %d: %s and %s were opened together and then drained in order; reader %d (%s) behaves differently over HTTP\n  direct: %s\n  http:   %s", i, op, op2, k+1, o, d, h)
+					}
+				}
+				continue
+			}
+		}
 		rD := reg.Exec(ctx, direct, op, hD)
 		st.Tracker.Reset()
 		rH := reg.Exec(ctx, st.Reg, op, hH)
